@@ -113,6 +113,24 @@ class CopyExperiment:
 
     # ------------------------------------------------------------------------------------
     def do(self, run, o):
+        from .core import Violation, Foreign
+        try:
+            return self._do(run, o)
+        except (StopRun, Violation, Foreign):
+            raise
+        except Exception as e:  # noqa
+            # everything in a copy experiment is a valid use of the copy API and of plain reads /
+            # writes on the two sides: an exception escaping from the library here is a failure of
+            # the copy to behave like an entity of its own
+            import traceback
+            tb = traceback.extract_tb(e.__traceback__)
+            where = next((f for f in reversed(tb) if "/nixio/" in f.filename), None)
+            if where is None:
+                raise
+            run.violation("copy_library_exception", "copy_" + o["kind"], type(e).__name__,
+                          "%s: %s (at %s:%d)" % (type(e).__name__, str(e)[:160], where.filename.split("/nixio/")[-1], where.lineno))
+
+    def _do(self, run, o):
         kind = o["kind"]
         base = {"section_into_section": "section"}.get(kind, kind)
         sm = run.pick(base, o["src"])
